@@ -943,6 +943,11 @@ func (t *State) undoTxInternal(tx *pb.Transaction, batch kvdb.Batch) error {
 		uItem.Amount = big.NewInt(0)
 		uItem.Amount.SetBytes(amount)
 		uItem.FrozenHeight = txInput.FrozenHeight
+		// the frozen height written into the input is chosen by the spender and not compared with the
+		// output on admission: restore the one the spent output really had
+		if refTx, _, qErr := t.xmodel.QueryTx(txid); qErr == nil && refTx != nil && int(offset) < len(refTx.TxOutputs) {
+			uItem.FrozenHeight = refTx.TxOutputs[offset].FrozenHeight
+		}
 		t.utxo.UtxoCache.Insert(string(addr), utxoKey, uItem)
 		uBinary, uErr := uItem.Dumps()
 		if uErr != nil {
